@@ -6,7 +6,7 @@ BASELINE_OFF = ("export GOFLAGS=-mod=mod GOPROXY=off GOSUMDB=off GOTOOLCHAIN=loc
     "for m in dnsrocks dnsrocks/go-cdb-mods; do (cd /repo/$m && go test -mod=mod -json -vet=off -count=1 -timeout 25m ./...); done; "
     "git -C /repo checkout -- dnsrocks/go.mod dnsrocks/go.sum dnsrocks/go-cdb-mods/go.mod 2>/dev/null; true")
 
-TECH = "bounded symbolic execution of the real Go SSA (own executor gosym) + SMT (z3 5.1/4.8.12, cvc5 fall-back); counterexamples replayed natively"
+TECH = "bounded symbolic execution of the real Go SSA (own executor gosym) + SMT (z3 5.1/4.8.12, cvc5 fall-back); every assertion decided by the solver (or exact small-domain evaluation) on every path within the registered shapes; schedules explored exhaustively within the pre-emption bound; counterexamples replayed (natively for the native=yes harnesses, by concrete re-execution of the real code otherwise)"
 
 # property -> (claimed?, level text, level note, design ref)
 CLAIMED = {}
